@@ -127,6 +127,7 @@ class Ctx:
         self.mono_pairs = []
         self.keep = []  # keep z3 terms alive (ids are recycled after GC)
         self.shadow = None  # concolic translator validation: variable name -> float
+        self.simplify_stores = True  # masked scalar stores are simplified against the path condition
         self.opaque_math = False  # structural harnesses: sqrt/exp/log/trig results are uninterpreted (sound abstraction)
         self.shadow_checked = 0
 
